@@ -341,3 +341,7 @@ M('np_randoms-divisor', ['C37', 'C02'], (RT, "            d = t+1 if self.option
                                         "            d = t+1 if self.options.no_prss else 1\n            bound = 1 << max(0, (bound // d).bit_length() - 1)  # NB: rounded power of 2\n        if self.options.no_prss:\n            uci = self._program_counter[0] % m\n            senders = tuple((uci + i) % m for i in range(t+1))  # TODO: sort out load balancing\n            if self.pid in senders:\n                x = field.array("))
 M('prod-marks-misaligned', ['C03'], (RT, "integral[n%2:] = [integral[i] and integral[i+1] for i in range(n%2, n, 2)]", "integral[n%2:] = [integral[i] and integral[i+1] for i in range(0, n - 1, 2)]"),
   why='for an odd number of factors the integrality marks are combined for other pairs than the products (FX6)')
+M('np_sgn-bits-oversubscribed', ['C18'], (RT, "r_bits = self.np_random_bits(Zp, (l + int(not EQ)) * n)", "r_bits = self.np_random_bits(Zp, (l + int(LT)) * n)"),
+  why='for the plain sign (neither LT nor EQ) the sign masks alias the top bits of the additive mask (RB1)')
+M('poly-mod-exit-leq', ['C23'], ('gfpx', "        m = len(a)\n        n = len(b)\n        if m < n:\n            return a\n", "        m = len(a)\n        n = len(b)\n        if m <= n:\n            return a\n"),
+  why='operands of equal degree are returned unreduced: deg r = deg b (OP8)')
